@@ -88,22 +88,28 @@ Proof.
   set (i1 := (length p1 - shorter)%nat). set (i2 := (length p2 - shorter)%nat).
   assert (L1 : (0 < length p1)%nat) by (destruct p1; [congruence|cbn; lia]).
   assert (L2 : (0 < length p2)%nat) by (destruct p2; [congruence|cbn; lia]).
-  destruct (min_facts _ _ L1 L2) as (Hs & M1' & M2' & M3' & M4'). fold shorter in Hs, M1', M2', M3', M4'.
-  fold i1 in M1', M3'. fold i2 in M2', M4'.
+  destruct (min_facts _ _ L1 L2) as (Hs & M1' & M2' & M3' & M4').
   destruct (first_common_some (skipn i1 p1) (skipn i2 p2) 0) as (k & Hk & x & Ha & Hb).
-  { rewrite !skipn_length. lia. }
-  { intros E. apply (f_equal (@length hash)) in E. rewrite skipn_length in E. cbn in E. lia. }
-  { rewrite !last_skipn; [exact Hlast| |]; lia. }
-  rewrite Hk. cbn [Nat.add].
+  { rewrite !skipn_length. unfold i1, i2, shorter. lia. }
+  { intros E. apply (f_equal (@length hash)) in E. rewrite skipn_length in E. cbn in E. unfold i1, shorter in E. lia. }
+  { rewrite !last_skipn; [exact Hlast|exact M4'|exact M3']. }
+  change (0 + k)%nat with k in Hk. rewrite Hk.
   rewrite nth_error_skipn' in Ha, Hb.
   pose proof (ppath_nth _ _ _ _ P1 _ _ Ha) as Q1. pose proof (ppath_nth _ _ _ _ P2 _ _ Hb) as Q2.
   pose proof (ppath_det _ _ _ _ _ Q1 Q2) as Es.
   exists (firstn (i1 + k) p1), (firstn (i2 + k) p2), (skipn (i1 + k) p1), x.
   split; [|split; [|split]].
-  - now rewrite (firstn_succ_nth _ _ _ Ha), (firstn_succ_nth _ _ _ Hb).
+  - f_equal. f_equal; [exact (firstn_succ_nth _ _ _ Ha)|exact (firstn_succ_nth _ _ _ Hb)].
   - symmetry. apply firstn_skipn.
-  - rewrite Es. symmetry. apply firstn_skipn.
-  - destruct (skipn_nth_cons _ _ _ Ha) as (r & ->). discriminate.
+  - symmetry. etransitivity; [|apply (firstn_skipn (i2 + k) p2)]. f_equal. exact Es.
+  - destruct (skipn_nth_cons _ _ _ Ha) as (r & Er). intros E. unfold hash in *. rewrite E in Er. discriminate.
+Qed.
+
+Lemma skipn_S_tail {A} (l : list A) i x r : skipn i l = x :: r -> skipn (S i) l = r.
+Proof.
+  revert l. induction i; intros l E.
+  - cbn in E. subst l. reflexivity.
+  - destruct l as [|a l]; [discriminate|]. cbn [skipn] in E. apply IHi in E. exact E.
 Qed.
 
 (* ---- observation *)
@@ -138,8 +144,7 @@ Proof.
     rewrite Ht. cbn [lift bind]. destruct (IH (S i)) as (ts & Hts & Hm); [lia|]. rewrite Hts. cbn [bind].
     exists (t :: ts). split; [reflexivity|]. cbn [map]. rewrite Hm.
     destruct (skipn_nth_cons _ _ _ Hn) as (r & Er). rewrite Er. cbn [firstn]. f_equal.
-    replace (skipn (S i) (chain_of bc c)) with r; [reflexivity|].
-    change (S i) with (1 + i)%nat. rewrite <- skipn_skipn. now rewrite Er.
+    now rewrite (skipn_S_tail _ _ _ _ Er).
 Qed.
 
 Lemma observe_spec pref ops bc c : bc_cache bc = Some c ->
